@@ -69,7 +69,7 @@ func VerifH_C09_L1_adoption() {
 // view, no second task is created for the attempt and nothing recorded is lost.
 func VerifH_C09_L2_crash() {
 	p := verifSetupPass(verifPassOpts{
-		job:           verifJobOpts{maxRefs: 2, parallel: 0, started: 1, maxAttemptsHi: 3, inv8: true, concreteTimes: true, oneResult: true},
+		job:           verifJobOpts{maxRefs: 2, parallel: 0, started: 1, maxAttemptsHi: 3, inv8: true, concreteTimes: true, oneResult: true, preMarked: true},
 		cacheMayLag:   true, taskMayFinish: true, createOutcomes: 1,
 	})
 	j := p.j
@@ -152,6 +152,15 @@ func VerifH_C09_L2_crash() {
 		}
 		if !old.FinishTimestamp.IsZero() {
 			vz.Assert(!nw.FinishTimestamp.IsZero() && nw.FinishTimestamp.Equal(old.FinishTimestamp), "C11/L2/finish-time-never-changes")
+		}
+		// the last known state of a task that is seen finished is its real final state,
+		// whatever was pencilled in before a delete was issued
+		if r.task != nil && !r.task.Ref.FinishTimestamp.IsZero() {
+			vz.Assert(nw.Status.Result == r.task.Ref.Status.Result, "C09/L2/observed-final-state-is-recorded")
+			// (C10: what later decides the Job's result is the outcome the task really had)
+			vz.Assert(nw.DeletedStatus != nil && nw.DeletedStatus.Result == r.task.Ref.Status.Result, "C10/recorded-outcome-is-the-real-outcome")
+			vz.Assert(nw.DeletedStatus != nil && nw.DeletedStatus.Result == r.task.Ref.Status.Result, "C09/L2/last-known-state-is-the-observed-final-state")
+			vz.Cover("observed-finished")
 		}
 		if !r.inCache && !r.hasFinished {
 			vz.Assert(nw.Status.State == execution.TaskDeletedFinalStateUnknown || nw.DeletedStatus != nil, "C09/L2/vanished-task-keeps-last-known-state")
